@@ -298,7 +298,11 @@ class SubprocessStreamReaderWrapperContextManager(
         exc_val: BaseException | None,
         exc_tb: TracebackType | None,
     ) -> None:
-        await self.proc.wait()
+        # If the consumer failed, the process may be blocked writing to a pipe that nobody reads
+        if exc_type is not None and self.proc.returncode is None:
+            self.proc.kill()
+        # Drain the pipes while waiting: `wait` alone never returns while unread output is pending
+        await self.proc.communicate()
         if self.stream:
             await self.stream.close()
 
